@@ -184,13 +184,27 @@ func GenResponseCase(t *rapid.T) DCase {
 	case 17:
 		param := byte(rapid.IntRange(1, 5).Draw(t, "param"))
 		c := GenDCMICaps(param).Draw(t, "caps")
-		cmd, check, _ := c.Command()
 		capMin := len(c.Bytes())
 		if param == 2 {
 			capMin = 3 + 4 // a 4-byte parameter body is read as the v1.0 form (documented)
 		}
-		return DCase{fmt.Sprintf("DCMICaps/param%d/v1.%d", param, c.Minor), c.Bytes(), capMin, func() gopacket.DecodingLayer { return cmd.Response() },
-			func(l gopacket.DecodingLayer) error { return check() }}
+		// every Fresh() is a new command value (and so a new response layer); the
+		// comparator belonging to a layer is found through the layer
+		checks := map[gopacket.DecodingLayer]func() error{}
+		return DCase{fmt.Sprintf("DCMICaps/param%d/v1.%d", param, c.Minor), c.Bytes(), capMin,
+			func() gopacket.DecodingLayer {
+				cmd, check, _ := c.Command()
+				l := cmd.Response().(gopacket.DecodingLayer)
+				checks[l] = check
+				return l
+			},
+			func(l gopacket.DecodingLayer) error {
+				check, ok := checks[l]
+				if !ok {
+					return fmt.Errorf("harness: layer %p was not made by this case", l)
+				}
+				return check()
+			}}
 	case 18:
 		d := GenDCMIPower().Draw(t, "v")
 		return DCase{"GetPowerReadingRsp", d.Bytes(), 17, func() gopacket.DecodingLayer { return &dcmi.GetPowerReadingRsp{} },
